@@ -4,7 +4,9 @@ pub mod c13;
 pub mod c14;
 pub mod c15;
 pub mod c16;
+pub mod crash;
 pub mod hist;
+pub mod sched;
 
 pub fn run(name : &str, ctx : &Ctx, out : &mut Out) -> bool
 {
@@ -20,6 +22,8 @@ pub fn run(name : &str, ctx : &Ctx, out : &mut Out) -> bool
         "c16_table" => c16::table(ctx, out),
         "hist" => hist::histories(ctx, out),
         "c18_shortcut" => hist::shortcut(ctx, out),
+        "sched" => sched::schedules(ctx, out),
+        "crash" => crash::crashes(ctx, out),
         _ => return false,
     }
     true
